@@ -496,6 +496,9 @@ def _slice_b(h, port_name, site1, site2, core, site3):
     c = h.call(h.getattr(n2, 'add_component'), name='nic', model_type=_topo.CMT('SmartNIC_ConnectX_6'))
     i = _topo.iface(h, c, 'nic-p1')
     h.call(h.getattr(t, 'add_port_mirror_service'), name='mirror', from_interface_name=port_name, to_interface=i)
+    # a component on a node that is not a compute node
+    sw = h.call(h.getattr(t, 'add_switch'), name='sw', site=site2, nports=2)
+    h.call(h.getattr(sw, 'add_component'), name='fpga', model_type=_topo.CMT('FPGA_Xilinx_U280'))
     # the facility sits at a site where the slice may have no node at all
     h.call(h.getattr(t, 'add_facility'), name='fac', site=site3, capacities=h.call(Capacities, bw=10))
     # validation records the site of single-site services (the mirror service sits where its receiving port is)
@@ -547,7 +550,7 @@ class TopologyCollection(Contract):
         sites = g(RA.RESOURCE_SITE)
         return And(And(*[member(s, sites) for s in (site1, site2, site3)]), And(*[Or(eq(s, site1), eq(s, site2), eq(s, site3)) for s in sites]),
                    lists_eq(g(RA.RESOURCE_CPU), [core, 0]) if len(g(RA.RESOURCE_CPU)) == 2 else lists_eq(g(RA.RESOURCE_CPU), [core]),
-                   lists_eq(sorted(map(str, g(RA.RESOURCE_COMPONENT))), ['GPU', 'SmartNIC']),
+                   lists_eq(sorted(map(str, g(RA.RESOURCE_COMPONENT))), ['FPGA', 'GPU', 'SmartNIC']),
                    lists_eq(g(RA.RESOURCE_FACILITY_PORT), ['fac']),
                    lists_eq(g(RA.RESOURCE_MIRROR_SITE), [site2]))
 
@@ -564,4 +567,39 @@ class TopologyCollection(Contract):
                'topo.collection_independent_of_earlier_collections': lambda pre, post: TopologyCollection._independent(pre, post)}
 
 
-CONTRACTS.append(TopologyCollection)
+class MirrorExemptionFollowsTheSlice(Contract):
+    """history on ONE slice: while another service of the slice uses the mirrored port the mirror is exempt; once that service
+    is removed the mirror listens outside the slice and its site must be named -- also when the slice had been collected before"""
+    target = TA + '_collect_attributes_from_topo'
+    props = ('C11',)
+    bounded = _topo.BOUND + '; one slice program (bridge + port mirror of the bridge port), collected before and after the bridge is removed'
+    summaries = _topo.SUMMARIES
+    max_paths = 4000
+    cost = 40
+
+    def inputs(self, g):
+        return [g.atom('port'), g.atom('site1'), g.atom('site2')], {}
+
+    def body(self, h, port, site1, site2):
+        _topo.fresh_world(h)
+        t = h.call(ExperimentTopology)
+        n1 = h.call(h.getattr(t, 'add_node'), name='c1', site=site1)
+        c1 = h.call(h.getattr(n1, 'add_component'), name='nic', model_type=_topo.CMT('SharedNIC_ConnectX_6'))
+        i1 = _topo.iface(h, c1, 'nic-p1')
+        h.call(h.getattr(t, 'add_network_service'), name='br', nstype=ServiceType.L2Bridge, interfaces=PList([i1]) if h.mode == 'sym' else [i1])
+        peer = _topo.pylist(h.call(h.getattr(i1, 'get_peers')))[0]
+        h.call(h.getattr(peer, 'set_properties'), labels=h.call(Labels, local_name=port))
+        n2 = h.call(h.getattr(t, 'add_node'), name='c2', site=site2)
+        c2 = h.call(h.getattr(n2, 'add_component'), name='nic', model_type=_topo.CMT('SmartNIC_ConnectX_6'))
+        h.call(h.getattr(t, 'add_port_mirror_service'), name='mirror', from_interface_name=port, to_interface=_topo.iface(h, c2, 'nic-p1'))
+        h.call(h.getattr(t, 'validate'))
+        before = _attrs(h, t).get(RA.RESOURCE_MIRROR_SITE, [])
+        h.call(h.getattr(t, 'remove_network_service'), 'br')
+        after = _attrs(h, t).get(RA.RESOURCE_MIRROR_SITE, [])
+        return (before, after)
+
+    ensures = {'mirror.exempt_only_while_the_port_is_in_the_slice': lambda pre, post: returned(post) and And(
+        len(post.result[0]) == 0, lists_eq(post.result[1], [pre.args[2]]))}
+
+
+CONTRACTS += [TopologyCollection, MirrorExemptionFollowsTheSlice]
